@@ -29,7 +29,7 @@ type Obligation struct {
 	Time   float64 `json:"time_s"`
 	Model  string  `json:"model,omitempty"`
 	Canary bool    `json:"canary,omitempty"` // vacuity probe: expected to be sat
-	Late   bool    `json:"-"` // reserve vacuity probe: only tried when the sampled probes were all unsat
+	Late   bool    `json:"-"`                // reserve vacuity probe: only tried when the sampled probes were all unsat
 	Path   string  `json:"path,omitempty"`
 	inputs []inputLeaf
 }
@@ -1242,7 +1242,6 @@ func refutedAntecedent(st *State, goal string) bool {
 	}
 	return false
 }
-
 
 // runDefers executes the deferred calls of the top frame in LIFO order, then continues with k.
 func (x *Exec) runDefers(st *State, k func(*State)) {
